@@ -181,12 +181,17 @@ static std::string run(const std::vector<Op> &h, std::string &viol, size_t keep,
   std::string canon;
   {
     Pool *pp = dflt ? new Pool() : new Pool(keep); Pool &P = *pp;
-    auto walk = [&](std::vector<const void *> &out) {        // the parked list; bounded walk (cycle guard)
-      out.clear(); for (auto *b = P.free_header_; b != nullptr && out.size() < 64; b = b->next) out.push_back(b); };
+    auto is_live = [&](const void *q) { for (auto &l : live) if (l.p == q) return true; return false; };
+    auto walk = [&](std::vector<const void *> &out) {        // the parked list; bounded (cycle guard); a link is only followed
+      out.clear();                                           // out of a block this harness has seen and that is not in use
+      for (auto *b = P.free_header_; b != nullptr && out.size() < 64; b = b->next) {
+        out.push_back(b);
+        if (is_live(b)) { if (viol.empty()) viol = "pool-live-object-is-on-free-list"; return; }
+        if (!blk.count(b)) { if (viol.empty()) viol = "pool-free-list-has-unknown-block"; return; } } };
     auto check = [&]() {
       for (auto &l : live) if (l.p->live != ALIVE || l.p->serial != l.serial || l.p->head != (MAGIC ^ (uint64_t)l.serial)) {
         viol = "pool-live-object-corrupted serial=" + std::to_string(l.serial); return; }
-      std::vector<const void *> fl; walk(fl);
+      std::vector<const void *> fl; walk(fl); if (!viol.empty()) return;
       if (fl.size() != P.free_number_) { viol = "pool-free-list-length-differs-from-free-number"; return; }
       if (fl.size() > keep) { viol = "pool-parks-more-than-keep-number"; return; }
       std::set<const void *> u(fl.begin(), fl.end());
@@ -194,14 +199,14 @@ static std::string run(const std::vector<Op> &h, std::string &viol, size_t keep,
       for (auto &l : live) if (u.count(l.p)) { viol = "pool-live-object-is-on-free-list"; return; }
       if (g_ctor != allocs || g_dtor != frees) { viol = "pool-ctor-dtor-count ctor=" + std::to_string(g_ctor) + " dtor=" + std::to_string(g_dtor) + " allocs=" + std::to_string(allocs) + " frees=" + std::to_string(frees); return; }
     };
-    auto do_free = [&](size_t i) {
+    auto do_free = [&](size_t i, const char *ctx) {
       L l = live[i]; live.erase(live.begin() + i);
       long c0 = g_ctor, d0 = g_dtor;
       g_inuse.erase(l.p);                   // from here on the storage may be handed out again
       P.free(l.p); frees++;
-      if (g_dtor != d0 + 1) { if (viol.empty()) viol = std::string("pool-free-runs-") + (g_dtor == d0 ? "no" : "several") + "-destructors"; return; }
-      if (g_ctor != c0) { if (viol.empty()) viol = "pool-free-runs-constructor"; return; }
-      std::vector<const void *> fl; walk(fl);
+      if (g_dtor != d0 + 1) { if (viol.empty()) viol = std::string("pool-free-runs-") + (g_dtor == d0 ? "no" : "several") + "-destructors" + ctx; return; }
+      if (g_ctor != c0) { if (viol.empty()) viol = std::string("pool-free-runs-constructor") + ctx; return; }
+      std::vector<const void *> fl; walk(fl); if (!viol.empty()) return;
       bool parked = std::find(fl.begin(), fl.end(), (const void *)l.p) != fl.end();
       g_out[parked ? "pool:free->parked" : "pool:free->released"]++;
       if (!parked) blk.erase(l.p);          // really given back to malloc; the address may come back as a new block
@@ -220,7 +225,7 @@ static std::string run(const std::vector<Op> &h, std::string &viol, size_t keep,
         if (!blk.count(p)) blk[p] = next_blk++;
         g_out[had_parked ? "pool:alloc<-parked-block" : "pool:alloc<-malloc"]++;
         live.push_back(L{p, serial, blk[p]}); g_inuse.insert(p);
-      } else do_free((size_t)o.a);
+      } else do_free((size_t)o.a, "");
       if (!viol.empty()) break;
       check(); if (!viol.empty()) break;
     }
@@ -230,12 +235,14 @@ static std::string run(const std::vector<Op> &h, std::string &viol, size_t keep,
     canon += "] live{"; for (auto &l : live) { snprintf(b, sizeof b, "b%d ", l.blk); canon += b; } canon += "}";
     // teardown: give everything back, destroy the pool (ASan sees double free / use after free); pairs must balance
     if (viol.empty()) {
-      while (!live.empty() && viol.empty()) do_free(live.size() - 1);
+      while (!live.empty() && viol.empty()) do_free(live.size() - 1, " (end-of-history teardown: free of a remaining live object)");
       if (viol.empty() && (g_ctor != allocs || g_dtor != allocs)) viol = "pool-ctor-dtor-unbalanced-at-end ctor=" + std::to_string(g_ctor) + " dtor=" + std::to_string(g_dtor) + " allocs=" + std::to_string(allocs);
     }
-    long d0 = g_dtor;
-    delete pp;
-    if (viol.empty() && g_dtor != d0) viol = "pool-destructor-runs-object-destructors";
+    if (viol.empty()) {                     // after a violation the pool is leaked on purpose: its list is suspect
+      long d0 = g_dtor;
+      delete pp;
+      if (g_dtor != d0) viol = "pool-destructor-runs-object-destructors";
+    }
   }
   g_viol = nullptr;
   return canon;
